@@ -681,6 +681,21 @@ def _patch_bufsize():
     inotify_c.Inotify._verif_patched = True
 
 
+def with_instances(fn, patience=120.0):
+    """Run fn(); if it fails because the per-user limit of inotify instances (128 by default) is exhausted - by other
+    checks running on the machine at the same time - wait for instances to become free and try again."""
+    import errno
+
+    end = time.monotonic() + patience
+    while True:
+        try:
+            return fn()
+        except OSError as e:
+            if e.errno != errno.EMFILE or "inotify" not in str(e) or time.monotonic() > end:
+                raise
+            time.sleep(0.5)
+
+
 class Session:
     """One observer over a fresh scratch tree.  cfg keys: recursive, bytes, full, bufsize, observer
     ('inotify'|'polling'), spelling ('abs'|'rel'|'slash'), pathtype ('str'|'bytes'|'path'), event_filter (list of
@@ -734,6 +749,8 @@ class Session:
             flt = [getattr(ev, n) for n in flt]
         kw = {"follow_symlink": True} if cfg.get("follow_symlink") else {}
         self.watch = self.obs.schedule(self.handler, given, recursive=bool(cfg.get("recursive", True)), event_filter=flt, **kw)
+        _start = self.obs.start
+        self.obs.start = lambda: with_instances(_start)  # (the emitters are created in start())
         self.given2 = None
         if tw:
             # the same directory scheduled a second time on the same observer, under another spelling, for another handler
